@@ -866,6 +866,9 @@ public:
   //! \ref init(), and then by attaching loggers, error handlers, and emitters that were attached previously. This
   //! means that after reinitialization you will get a clean and ready for use \ref CodeHolder, which was initialized
   //! the same way as before.
+  //!
+  //! \note If the storage for the default section cannot be allocated \ref Error::kOutOfMemory is returned and
+  //! the \ref CodeHolder is left reset (uninitialized, all emitters detached).
   ASMJIT_API Error reinit() noexcept;
 
   //! Detaches all code-generators attached and resets the `CodeHolder`.
